@@ -231,11 +231,36 @@ def classify_node(name, func):
     return "scalar_rule"
 
 
+def _canon(obj, out):
+    """structural, aliasing-insensitive serialisation (pickle memoises shared sub-objects, so two equal
+    environments can pickle differently)"""
+    if isinstance(obj, dict):
+        out.append("{")
+        for k in sorted(obj, key=lambda x: (type(x).__name__, repr(x))):
+            out.append(repr(k) + ":")
+            _canon(obj[k], out)
+            out.append(",")
+        out.append("}")
+    elif isinstance(obj, (list, tuple)):
+        out.append("[" if isinstance(obj, list) else "(")
+        for v in obj:
+            _canon(v, out)
+            out.append(",")
+        out.append("]")
+    elif type(obj).__module__ == "numpy" and hasattr(obj, "tolist"):
+        out.append(f"np<{getattr(obj, 'dtype', '')}>")
+        _canon(obj.tolist(), out)
+    else:
+        out.append(f"{type(obj).__name__}:{obj!r}")
+
+
 def params_fingerprint(obj) -> str:
+    out = []
     try:
-        return hashlib.sha256(pickle.dumps(obj, protocol=4)).hexdigest()[:16]
+        _canon(obj, out)
+        return hashlib.sha256("".join(out).encode()).hexdigest()[:16]
     except Exception:  # noqa: BLE001
-        return hashlib.sha256(repr(obj).encode()).hexdigest()[:16]
+        return hashlib.sha256(pickle.dumps(obj, protocol=4)).hexdigest()[:16]
 
 
 def rule_source_fingerprint(func) -> str:
